@@ -594,6 +594,23 @@ func stripNot(c ssa.Value) (ssa.Value, bool) {
 	flip := false
 	for {
 		c = Strip(c)
+		if bo, ok := c.(*ssa.BinOp); ok && (bo.Op == token.EQL || bo.Op == token.NEQ) {
+			// x == false, x != true  ≡ !x ;  x == true, x != false ≡ x
+			if k, isC := ConstBool(bo.Y); isC {
+				if (bo.Op == token.EQL) != k {
+					flip = !flip
+				}
+				c = bo.X
+				continue
+			}
+			if k, isC := ConstBool(bo.X); isC {
+				if (bo.Op == token.EQL) != k {
+					flip = !flip
+				}
+				c = bo.Y
+				continue
+			}
+		}
 		u, ok := c.(*ssa.UnOp)
 		if !ok || u.Op != token.NOT {
 			return c, flip
